@@ -223,3 +223,16 @@ PROPS["C11"] = {
         "the API layer passes user SQL only to these QueryEngine entry points",
     ],
 }
+
+PROPS["C16"] = {
+    "level": "other",
+    "technique": "Verus contracts on the extracted TieredCache::get_or_fetch (representation invariant: whatever L1 / L2 may hold under a key is the backing store's bytes of that key; a successful read returns exactly those bytes; inserts only under the requested key), TieredCache::invalidate and CachedObjectStore::get_opts / delete / rename (ranged and conditional reads bypass the cache, delete and rename invalidate)",
+    "verus": ["c16_cache.rs.in"],
+    "explanation": "Transparency is proved for every sequence of operations (invariant preserved by each operation) under the ASSUMED moka / foyer contract that get(k) returns only a value previously inserted under k (eviction = absence at any time). CachedObjectStore::get itself (closure / stream plumbing around get_or_fetch) enters through an assumed contract; concurrent readers of one key and eviction timing inside moka / foyer are not covered; other GetOptions fields (if_modified_since, version, head) are not examined by the code and not by this check.",
+    "assumptions": [
+        "moka::future::Cache and foyer::HybridCache return from get(k) only what was inserted under k, or nothing",
+        "chunk objects are write-once: the backing store's bytes under a key never change (stored(k) is a function of the key)",
+        "the fetch closure passed to get_or_fetch reads the backing store under the same key",
+        "Arc, Bytes::from / to_vec preserve contents",
+    ],
+}
